@@ -37,6 +37,15 @@ Fixpoint edf_next (fuel : nat) (ws : list Z) (ctr : Z) : Z * Z :=
 
 Definition budget : Z := 3000.
 
+(* the picks among the L sequence numbers ctr+1 .. ctr+L, in order: which backend each
+   picked sequence number addresses (no uint32 wrap: used for windows below 2^32) *)
+Fixpoint wpicks (ws : list Z) (ctr : Z) (L : nat) : list Z :=
+  match L with
+  | O => []
+  | S L' => let idx := ctr + 1 in
+            (if picks_at ws idx then [backend (zlen ws) idx] else []) ++ wpicks ws idx L'
+  end.
+
 Fixpoint edf_calls (B : nat) (k : nat) (ws : list Z) (ctr : Z) : list Z :=
   match k with
   | O => []
@@ -84,6 +93,9 @@ Definition u16_round (x : float) : Z := round_nonneg x mod 65536.
 Definition fz (z : Z) : float := PrimFloat.of_uint63 (Uint63.of_Z z).
 (* endpoint weights travel as ratios num/den of integers below 2^53 *)
 Definition fratio (num den : Z) : float := PrimFloat.div (fz num) (fz den).
+
+(* a float given as mantissa (below 2^53) and binary exponent: mant * 2^exp *)
+Definition fld (mant e : Z) : float := PrimFloat.ldshiftexp (fz mant) (Uint63.of_Z (e + 2101)).
 
 Definition fsum (l : list float) : float := fold_left PrimFloat.add l PrimFloat.zero.
 Definition fmax (l : list float) : float :=
@@ -142,7 +154,8 @@ Definition fdec (x : float) : list Z :=
                        OnLoadReport at time now (qps, app util, cpu util, eps, penalty)   obs []
    [5; now; expir; blackout]  weight(now, ...)                         obs [mant; exp]
    [6; s; w1..wn]      edfScheduler{weights}, picker.idx = s: sum(ws) nextIndex calls, summarised
-                        obs [consumed; max consumed by one call; count of backend 0; ...]   *)
+                        obs [consumed; max consumed by one call; count of backend 0; ...]
+   [8; m1; e1; ...]    newScheduler for endpoint weights m_i * 2^e_i (extreme magnitudes)  obs as op 3   *)
 Definition maxCalls : Z := 400.
 Definition maxWindow : Z := 300000.
 Fixpoint sumz (l : list Z) : Z := match l with [] => 0 | x :: r => x + sumz r end.
@@ -156,7 +169,8 @@ Fixpoint pairs (l : list Z) : option (list (Z * Z)) :=
 
 Inductive opc :=
 | OEdf (s k : Z) (ws : list Z) | ORr (s k n : Z) | ONew (ws : list (Z * Z))
-| ORep (now : Z) (q a c e p : Z * Z) | OWt (now expir blackout : Z) | OWin (s : Z) (ws : list Z).
+| ORep (now : Z) (q a c e p : Z * Z) | OWt (now expir blackout : Z) | OWin (s : Z) (ws : list Z)
+| ONewX (ws : list (Z * Z)).
 
 Definition decode (op : word) : option opc :=
   match op with
@@ -167,6 +181,7 @@ Definition decode (op : word) : option opc :=
     Some (ORep now (qn, qd) (an, ad) (cn, cd) (en, ed) (pn, pd))
   | [5; now; expir; blackout] => Some (OWt now expir blackout)
   | 6 :: s :: ws => Some (OWin s ws)
+  | 8 :: tl => match pairs tl with Some ps => Some (ONewX ps) | None => None end
   | _ => None
   end.
 
@@ -181,6 +196,7 @@ Definition step (e : epw) (op : opc) : epw * word :=
                    (map (fun _ => 0) ws))
   | ORr s k n => (e, if n <=? 0 then [] else rr_calls (clipk k) n (u32 s))
   | ONew ps => (e, new_scheduler (map fr ps))
+  | ONewX ps => (e, new_scheduler (map (fun p => fld (fst p) (snd p)) ps))
   | ORep now q a c ee p => (on_report e now (fr q) (fr a) (fr c) (fr ee) (fr p), [])
   | OWt now expir blackout => let '(w, e') := weight_at e now expir blackout in (e', fdec w)
   end.
@@ -223,43 +239,45 @@ Fixpoint exact_from (i : Z) (ws : list Z) (res : list Z) : bool :=
 (* clauses:
    1  EDF: every returned index is a backend (or -1: budget exhausted)
    6  the exact-window count for a window that crosses the uint32 wrap of picker.idx (refuted)
-   5  EDF, evaluated on traces only: when some weight is 65535 every nextIndex uses at most n
-      sequence numbers; sum(ws) calls inside a window of 65535*n sequence numbers (below the
-      uint32 wrap) choose backend i exactly w_i times
+   5  EDF: when some weight is 65535 every nextIndex uses at most n sequence numbers; the
+      sum(ws) calls that consume a window of 65535*n sequence numbers (below the uint32 wrap)
+      return backend i exactly w_i times
    2  RR: indices below n, consecutive calls advance by one (mod n) below the uint32 wrap
    3  newScheduler: RR for one endpoint, for fewer than two non-zero weights, EDF weights in
       0..65535 otherwise (float scaling itself: correspondence only)
    4  weight: 0 before the first report, after the expiration period and during the
       blackout period *)
+Definition has_max (ws : list Z) : bool :=
+  existsb (fun w => w =? maxWeight) ws && (zlen ws <=? budget).
+
 Definition clause_edf (i : Z) (s : Z) (ws : list Z) (o : word) : list (Z * Z * bool) :=
   if negb (ws_ok ws) then [] else
   let n := zlen ws in
   let idxs := evens o in
   let used := odds o in
   [(1, i, forallb (fun x => (-1 <=? x) && (x <? n)) idxs);
+   (* some weight is 65535: every call returns a backend within n sequence numbers *)
    (5, i,
-    forallb (fun u => 1 <=? u) used &&
-    (* some weight is 65535: every call ends within n sequence numbers *)
-    (if existsb (fun w => w =? maxWeight) ws && (u32 s + sumz used <? 2 ^ 32)
-     then forallb (fun x => 0 <=? x) idxs && forallb (fun u => u <=? n) used else true))].
+    if has_max ws && (u32 s + sumz used + n <? 2 ^ 32)
+    then forallb (fun x => 0 <=? x) idxs && forallb (fun u => u <=? n) used else true)].
 
 Definition clause_win (i : Z) (s : Z) (ws : list Z) (o : word) : list (Z * Z * bool) :=
   if negb (ws_ok ws) || (maxWindow <? sumz ws) then [] else
   let n := zlen ws in
   match o with
   | tot :: mx :: cs =>
-    let inwin := (0 <=? tot) && (tot <=? maxWeight * n) in
     let nowrap := u32 s + maxWeight * n <? 2 ^ 32 in
-    [(5, i,
+    [(* some weight is 65535 and the window of 65535*n sequence numbers after picker.idx stays
+        below the uint32 wrap: the sum(ws) calls stay inside the window, each uses at most n
+        sequence numbers, and backend i is returned exactly w_i times *)
+     (5, i,
       (zlen cs =? n) &&
-      (if existsb (fun w => w =? maxWeight) ws && (0 <=? tot) && (u32 s + tot <? 2 ^ 32)
-       then mx <=? n else true) &&
-      (* sum(ws) calls that stay inside a window of 65535*n sequence numbers below the uint32
-         wrap are exactly the picks of that window: backend i exactly w_i times *)
-      (if inwin && nowrap then word_eqb cs ws else true));
-     (* the same for a window that crosses the uint32 wrap of picker.idx
+      (if has_max ws && nowrap
+       then (0 <=? tot) && (tot <=? maxWeight * n) && (mx <=? n) && word_eqb cs ws else true));
+     (* the same count for a window that crosses the uint32 wrap of picker.idx
         (refuted: C36_window_wrap_refuted, finding F-C36-wrr-u32-wrap) *)
-     (6, i, if inwin && negb nowrap then word_eqb cs ws else true)]
+     (6, i, if has_max ws && negb nowrap && (0 <=? tot) && (tot <=? maxWeight * n)
+            then word_eqb cs ws else true)]
   | _ => [(0, i, false)]
   end.
 
@@ -289,6 +307,14 @@ Definition clause_new (i : Z) (ps : list (Z * Z)) (o : word) : list (Z * Z * boo
     end &&
     (if (n =? 1) || ((1 <=? n) && (nonzero <? 2)) then word_eqb o [1; n] else true))].
 
+(* clause 7 (evaluated on traces; the float scaling is not part of the bridge): an EDF scheduler
+   produced by newScheduler has a weight 65535, so that every pick ends within n numbers *)
+Definition clause_maxw (i : Z) (o : word) : list (Z * Z * bool) :=
+  match o with
+  | h :: wts => if h =? 2 then [(7, i, existsb (fun w => w =? maxWeight) wts)] else []
+  | [] => []
+  end.
+
 Definition clause_wt (i : Z) (e : epw) (now expir blackout : Z) (o : word) : list (Z * Z * bool) :=
   [(4, i,
     if (e_last e =? 0) || (now - e_last e >=? expir) ||
@@ -299,7 +325,8 @@ Definition clause_op (i : Z) (e : epw) (op : opc) (o : word) : list (Z * Z * boo
   match op with
   | OEdf s k ws => clause_edf i s ws o
   | ORr s k n => clause_rr i s k n o
-  | ONew ps => clause_new i ps o
+  | ONew ps => clause_new i ps o ++ clause_maxw i o
+  | ONewX ps => clause_maxw i o
   | ORep _ _ _ _ _ _ => []
   | OWt now expir blackout => clause_wt i e now expir blackout o
   | OWin s ws => clause_win i s ws o
@@ -317,10 +344,9 @@ Fixpoint clauses_from (i : Z) (e : epw) (ops obs : list word) : list (Z * Z * bo
   end.
 Definition clauses (ops obs : list word) : list (Z * Z * bool) := clauses_from 0 epw0 ops obs.
 
-(* clause 5 relates whole calls to windows of sequence numbers; the theorems prove the window
-   statements on [picks_at] / [edf_next] directly, the clause is evaluated on traces *)
+(* all clauses but the refuted one (6) and the float-scaling clause (7, traces only) *)
 Definition holds_b (ops obs : list word) : bool :=
-  forallb (fun c => (fst (fst c) =? 5) || (fst (fst c) =? 6) || snd c) (clauses ops obs).
+  forallb (fun c => (fst (fst c) =? 6) || (fst (fst c) =? 7) || snd c) (clauses ops obs).
 
 Definition op_wf (op : word) : bool :=
   match decode op with Some _ => true | None => false end.
